@@ -66,6 +66,10 @@ func (pac *PACType) Unmarshal(b []byte) (err error) {
 	if err != nil {
 		return
 	}
+	// Each PAC_INFO_BUFFER entry takes 16 bytes so the count cannot exceed what the data can hold.
+	if uint64(pac.CBuffers)*16 > uint64(len(b)) {
+		return fmt.Errorf("PAC buffer count %d exceeds the size of the PAC data", pac.CBuffers)
+	}
 	buf := make([]InfoBuffer, pac.CBuffers, pac.CBuffers)
 	for i := range buf {
 		buf[i].ULType, err = r.Uint32()
@@ -89,6 +93,9 @@ func (pac *PACType) Unmarshal(b []byte) (err error) {
 // https://msdn.microsoft.com/en-us/library/cc237954.aspx
 func (pac *PACType) ProcessPACInfoBuffers(key types.EncryptionKey, l *log.Logger) error {
 	for _, buf := range pac.Buffers {
+		if buf.Offset > uint64(len(pac.Data)) || uint64(buf.CBBufferSize) > uint64(len(pac.Data))-buf.Offset {
+			return fmt.Errorf("PAC info buffer of type %d (offset %d, size %d) lies outside the PAC data", buf.ULType, buf.Offset, buf.CBBufferSize)
+		}
 		p := make([]byte, buf.CBBufferSize, buf.CBBufferSize)
 		copy(p, pac.Data[int(buf.Offset):int(buf.Offset)+int(buf.CBBufferSize)])
 		switch buf.ULType {
